@@ -77,6 +77,7 @@ var tokenizerPool = sync.Pool{
 // rather than allocating new ones, providing significant performance benefits.
 func GetTokenizer() *Tokenizer {
 	t := tokenizerPool.Get().(*Tokenizer)
+	verifPoolGate("tokenizer.get")
 
 	// Record pool metrics
 	metrics.RecordPoolGet(true) // Assume from pool (New() creates if empty)
@@ -119,6 +120,7 @@ func PutTokenizer(t *Tokenizer) {
 			t.keywords = keywords.NewKeywords()
 		}
 		tokenizerPool.Put(t)
+		verifPoolGate("tokenizer.put")
 
 		// Record pool return
 		metrics.RecordPoolPut()
